@@ -75,8 +75,82 @@ def run_native(binary, args):
     return p.returncode, p.stdout.strip().splitlines()[-1][:300] if p.stdout.strip() else ""
 
 
+def narrowing_casts(ctx):
+    """numeric terminals are converted inside grammar actions: a literal that does not fit the target type has to be
+    rejected - `n.parse::<u64>()? as u32` accepts it and wraps"""
+    r = Result("B-7", "no parser body narrows a number obtained from the input text with `as` unless the path condition already "
+                      "confines it to the target type: for every narrowing integer cast whose operand derives from str::parse the "
+                      "solver is asked for a value outside the target range that reaches the cast")
+    r.functions = []
+    r.bounds = "every path of every body under src/command/parser and the HTTP JSON command form; loops unrolled, calls opaque"
+    out = [r]
+    q = ctx.q
+    bodies = ctx.find("command-parser-") + ctx.find("frontend-http-json_command-")
+    seen = 0
+    for f in bodies:
+        txt = open(f, errors="replace").read()
+        if "(IntToInt)" not in txt:
+            continue
+        fn = mir.parse_file(f)
+        try:
+            E = sym.Evaluation(fn, ctx.structs, k=ctx.k)
+        except Exception as ex:          # noqa: BLE001 - an unreadable body is inconclusive, not a pass
+            r.status = "inconclusive"
+            r.notes.append(f"{os.path.basename(f)[:80]}: {ex}")
+            return out
+        for e in oblig.events(E, r"^narrowing_cast$"):
+            src = " ".join(E.trace(e.args[0], e.env, depth=10) | {sym.describe(e.args[0])})
+            if not re.search(r"str::parse|FromStr|from_str_radix|arg:", src):
+                continue
+            seen += 1
+            r.functions.append(fn.name[-70:])
+            t = E.to_term(e.args[0], e.arg_types[0])
+            bits = mir.INT_BITS[e.arg_types[1]]
+            if e.arg_types[1] in mir.SIGNED:
+                lo, hi = -(1 << (bits - 1)), (1 << (bits - 1)) - 1
+                inside = z3.And(t >= lo, t <= hi) if e.arg_types[0] in mir.SIGNED else z3.ULE(t, hi)
+            else:
+                inside = z3.And(t >= 0, t <= (1 << bits) - 1) if e.arg_types[0] in mir.SIGNED else z3.ULE(t, (1 << bits) - 1)
+            res, model = q.check(e.reach, z3.Not(inside), domain=E.domain)
+            r.queries += 1
+            if res == z3.sat:
+                v = model.eval(t, model_completion=True)
+                val = v.as_signed_long() if e.arg_types[0] in mir.SIGNED else v.as_long()
+                wrapped = val % (1 << bits)
+                base = os.path.basename(f)
+                text = None
+                if "plotql" in base and "integer" in base:
+                    text = f"PLOT total(x) OF e TOP {val}"
+                elif "offset_clause" in base:
+                    text = f"QUERY e LIMIT 1 OFFSET {val}"
+                elif "limit_clause" in base:
+                    text = f"QUERY e LIMIT {val}"
+                shown, confirmed = "", True
+                if text:
+                    binary = native_binary(ctx.log)
+                    rc, line = run_native(binary, ["parsedbg", text]) if binary else (None, "native replay program did not build")
+                    shown = f"; real parser: {text} -> {line[:160]}"
+                    confirmed = line.startswith("Ok(") and str(val) not in line
+                r.status = "violated" if confirmed else "inconclusive"
+                if not confirmed:
+                    r.notes.append("the cast is reachable with an out-of-range value but the real parser did not accept the literal" + shown)
+                r.witness = {"what": f"a parsed {e.arg_types[0]} is narrowed with `as {e.arg_types[1]}` without a range check: {val} reaches the "
+                                     f"cast and wraps to {wrapped}{shown}",
+                             "span": f"{e.span[0]}:{e.span[1]}" if e.span else None, "call": fn.name[-80:], "path": E.path_of_model(model)[-6:],
+                             "model": {"value": str(val)}, "body": os.path.basename(f)}
+                return out
+            if res != z3.unsat:
+                r.status = "inconclusive"
+                r.notes.append("solver returned unknown")
+                return out
+    r.nontrivial = True
+    r.notes.append(f"{seen} narrowing casts of parsed numbers examined")
+    return out
+
+
 def obligations(ctx):
     out = []
+    out += narrowing_casts(ctx)
     q = ctx.q
     bodies = ctx.find("command-parser-") + ctx.find("frontend-http-json_command-")
     r = Result("B-1", "no parser body unwraps the result of a conversion of input text: every `unwrap`/`expect` "
